@@ -48,7 +48,7 @@ At2(place, place2, stmts) == At(place, IF place2 = 0 THEN stmts ELSE At(place2, 
 ReadAll == Ret(Arr(<<Ref("x"), Ref("y"), Ref("p"), Ref("q"), Ref("r"), Ref("g")>>))
 Prelude == <<Asg("x", LitI(1)), Asg("y", LitI(2))>>
 
-NTemplates == 22
+NTemplates == 23
 \* template t with names a (parameter), b (local / loop variable) called at a place
 Template(t, a, b) ==
   CASE t = 1  -> <<Func("f", <<a>>, <<Asg(a, Plus(Ref(a), LitI(10))), Ret(Ref(a))>>)>>                         \* parameter assigned
@@ -83,6 +83,11 @@ Template(t, a, b) ==
     [] t = 19 -> <<Func("f", <<a>>, <<Local(b), Asg(b, Plus(Ref(a), LitI(1))), Ret(Ref(b))>>),
                    Func("f2", <<>>, <<Ret(Arr(<<Ref(a), Ref(b)>>))>>)>>
     [] t = 20 -> <<Func("f", <<a>>, <<Local(b), Asg(b, Plus(Ref(a), LitI(1))), Ret(Ref(b))>>)>>
+    \* recursion whose every level assigns its own local and its own parameter from inside a loop
+    [] t = 23 -> <<Func("f", <<a>>, <<Local(b), Asg(b, LitI(0)),
+                                       ForEach("", "z", Arr(<<LitI(1), LitI(2)>>), <<Asg(b, Plus(Ref(b), Ref("z"))), Asg(a, Plus(Ref(a), LitI(0)))>>),
+                                       If(BinE(">", Ref(a), LitI(0)), <<Asg(b, Plus(Ref(b), Call("f", <<BinE("-", Ref(a), LitI(1))>>)))>>),
+                                       Ret(Plus(Plus(Ref(b), Ref(b)), Ref(a)))>>)>>
     \* too many arguments, and none at all
     [] t = 21 -> <<Func("f", <<a>>, <<Ret(Ref(a))>>)>>
     [] t = 22 -> <<Func("f", <<a>>, <<Ret(LitI(5))>>)>>
@@ -90,7 +95,7 @@ Template(t, a, b) ==
 \* definitions before (TRUE) or after (FALSE) the code that calls them
 ProgAt(t, a, b, place, place2, before) ==
   LET defs == Template(t, a, b)
-      arg  == IF t \in {5, 14} THEN LitI(2) ELSE LitI(3)
+      arg  == IF t \in {5, 14, 23} THEN LitI(2) ELSE LitI(3)
       call == IF t = 9 THEN <<<<"expr", Call("f", <<arg>>)>>, Asg("r", LitI(1))>>
               ELSE IF t = 19 THEN <<Asg("r", Call("f", <<arg>>)), TE(Ref("r")), TE(Call("f2", <<>>))>>
               ELSE IF t = 20 THEN <<Asg("r", Call("f", <<arg>>)), TE(Ref("r")),
